@@ -38,6 +38,18 @@ CHECKS = {
    technique='stateless model checking of the instrumented real logger: all interleavings at pool get/put, outMu and inside the destination Write, differential oracle against the same record logged alone',
    text='For each of the three handlers, 2-3 goroutines x 1-3 operations (root log, pre-derived child log, derive-then-log, below threshold, 20 KiB record, formatted log); Write begin/end are monitor events (no overlap may ever be observed), the multiset of chunks must equal byte-for-byte the lines produced by each call alone on a fresh handler, per-goroutine order preserved, nothing written below the threshold, no field-level race.',
    note=S_NOTE),
+ 'C11': dict(engine='vstate', cat='model_checking', ref='4 (C11), 2.3',
+   technique='explicit-state BFS whose transition function is the real Add/Remove call, to a fixpoint with list size 3 and to depth 3-4 around the real switch at 256, against a set-of-prefixes reference model',
+   text='Every reachable state of the filter over an alphabet of 7 nesting/colliding ranges plus invalid arguments (list size rebuilt to 3: BFS to a fixpoint), and all sequences of depth 3 (quick) / 4 (thorough) from 16 prefilled configurations at the real list size (index 253..256, holes first/middle/last); in every state Contains is compared with the model on first/last/outside-neighbour probes in 4-byte and 16-byte form; rejected arguments must leave the canonical dump unchanged.',
+   note='Trusted base: the reflective canonical dump (complete, so states are never merged wrongly), the prefix-set model, the constant override of listSize for the small variant. Alphabet of 7 ranges + 5 invalid shapes; prefix lengths 0,1,8,9,12,32.'),
+ 'C04': dict(engine='vstate', cat='model_checking', ref='4 (C04), 2.3',
+   technique='exhaustive enumeration of route tables (states) built on the real Mux in every registration order x all request paths/methods of a small alphabet dispatched through ServeHTTP (transitions), judged by an independent reference router',
+   text='All tables of <=2 (quick) / <=3 (thorough) routes over 37 patterns x 3 methods (single-route tables: 162 patterns x 5 methods), every registration order (canonical trie dumps must be equal), 3105 request paths x 5 method strings each; exactly one handler exactly once, no panic, the handler the documented precedence selects, its RouteInfo, and every parameter lookup bound to the exact path text.',
+   note='Trusted base: the reference router written from the statement (greedy literal > :param > *, empty segments skipped except a final one, root first, exact method > *). Paths without a leading slash: only one-handler-once-no-panic is required (segmentation undefined by the statement). Patterns without a leading slash are not generated.'),
+ 'C05': dict(engine='vstate+vsched', cat='model_checking', ref='4 (C05), 2.2, 2.3',
+   technique='explicit-state BFS over request/registration histories on one real Mux with explicit pool choices, differential oracle against a fresh Mux; plus stateless model checking of 2-3 concurrent requests with race detection',
+   text='All histories to depth 4 (quick) / 6 (thorough) over 9 requests x 3 pool behaviours + late registration of a route with more parameters; in relay, route and no-route handlers the observation vector (route info, every parameter name that exists anywhere, RouteParamAny, initial status, request id read twice) must equal the one on a fresh Mux with the same routes; ids unique and constant. Concurrent part: all interleavings (unbounded for 2 clients x 2 requests) at pool get/put and the id counter, field-level race detection.',
+   note=S_NOTE + ' The state key contains every pooled Store (names, values up to capacity, status, id length); the id counter is excluded (ids are checked along each path).'),
 }
 
 NA_REASON = 'check not built yet (work in progress; see DESIGN.md section 4)'
